@@ -174,6 +174,10 @@ class Tr:
             if any(p[1] != parts[0][1] for p in parts):
                 _bad(n, "heterogeneous list")
             return b, "[" + "; ".join(p[0] for p in parts) + "]", Lst(parts[0][1])
+        if isinstance(n, ast.Set):
+            if n.elts and all(isinstance(x, ast.Constant) and isinstance(x.value, str) for x in n.elts):
+                return [], "[" + "; ".join(coq_string(v) for v in sorted({x.value for x in n.elts})) + "]", Lst(S)
+            _bad(n, "set literal")
         if isinstance(n, ast.UnaryOp):
             b, v, t = self.e(n.operand, env)
             if isinstance(n.op, ast.Not) and t == B:
@@ -277,6 +281,11 @@ class Tr:
             if t != Z:
                 _bad(n)
             return b, self.raising(b, f"(dtype_of_code {v})"), DT  # ValueError
+        if isinstance(n.func, ast.Attribute) and not n.args and n.func.attr in ("strip", "lower"):
+            b, v, t = self.e(n.func.value, env)
+            if t != S:
+                _bad(n, n.func.attr + " on non-str")
+            return b, f"(str_{n.func.attr} {v})", S
         if isinstance(n.func, ast.Attribute) and not n.args and n.func.attr == "isdigit":
             b, v, t = self.e(n.func.value, env)
             if t != S:
